@@ -86,6 +86,9 @@ impl<T: El> Interp<T> {
         } else {
           scoped(|| MiniVec::<T>::from(&mut elems[..]))
         };
+        if let Some(b) = &v {
+          crate::interp_vec::alias_check(b, &elems, r);
+        }
         drop(elems); // the caller drops the source slice after the operation
         self.built(r, v)
       }
